@@ -53,6 +53,20 @@ def install_real_calcs(I, repo, st):
         cs[(ci.qualname, "CALC")] = calc_obj(I, repo, rec.fields["configuration"], rec.fields.get("table_based", False))
 
 
+def same_bits(I, a, b) -> bool:
+    """are the two bit vectors equal on the current path (compared modulo what the path knows)?"""
+    if len(a) != len(b):
+        return False
+    for x, y in zip(a, b):
+        d = x ^ y
+        if isinstance(d, OB):
+            raise AnalysisError("a bit the analysis could not follow reached a comparison of the CRC rules")
+        d = I.simp(d)
+        if not (isinstance(d, F) and d.is_const and d.c == 0):
+            return False
+    return True
+
+
 def run(ctx):
     repo = ctx.repo
     spec = json.loads(SPEC.read_text())
@@ -128,7 +142,7 @@ def run(ctx):
                     continue
                 bad = []
                 for L, msg, r in outs:
-                    if not isinstance(r, ABits) or len(r.items) != w or I.simp_bits(r.items) != remainder_forms(I, msg.items, w, poly):
+                    if not isinstance(r, ABits) or len(r.items) != w or not same_bits(I, r.items, remainder_forms(I, msg.items, w, poly)):
                         bad.append(L)
                 ctx.ob("crc/engine-remainder", key, not bad,
                        f"{len(outs)} lengths on one calculator; lengths whose checksum is not the polynomial remainder: {bad[:10]}", cc.loc)
@@ -179,7 +193,7 @@ def run(ctx):
             def expect(I, st, args, kw, r, n=n, mname=mname):
                 rem = remainder_forms(I, args[0].items, 16, 0x1021)
                 want = [b ^ 1 ^ ((spec["masks"][mname] >> (15 - j)) & 1) for j, b in enumerate(rem)]
-                return None if I.simp_bits(int_forms_msb(r, 16)) == want else f"CRC16.calculate != ~remainder ^ mask({mname})"
+                return None if same_bits(I, int_forms_msb(r, 16), want) else f"CRC16.calculate != ~remainder ^ mask({mname})"
             fe(f"etsi.crc.crc16:CRC16.calculate[{mname},{n} octets]", "etsi.crc.crc16", "CRC16.calculate", build, expect)
     # CRC8
     for n in (28, 36):
@@ -188,7 +202,7 @@ def run(ctx):
 
         def expect(I, st, args, kw, r):
             rem = remainder_forms(I, args[0].items, 8, 0x07)
-            return None if I.simp_bits(int_forms_msb(r, 8)) == rem else "CRC8.calculate != remainder"
+            return None if same_bits(I, int_forms_msb(r, 8), rem) else "CRC8.calculate != remainder"
         fe(f"etsi.crc.crc8:CRC8.calculate[{n} bits]", "etsi.crc.crc8", "CRC8.calculate", build, expect)
     # CRC9.calculate and calculate_from_parts
     for mname in ("Rate12DataContinuation", "Rate34DataContinuation", "Rate1DataContinuation"):
@@ -198,7 +212,7 @@ def run(ctx):
         def expect(I, st, args, kw, r, mname=mname):
             rem = remainder_forms(I, args[0].items, 9, 0x059)
             want = [b ^ 1 ^ ((spec["masks"][mname] >> (8 - j)) & 1) for j, b in enumerate(rem)]
-            return None if I.simp_bits(int_forms_msb(r, 9)) == want else f"CRC9.calculate != ~remainder ^ mask({mname})"
+            return None if same_bits(I, int_forms_msb(r, 9), want) else f"CRC9.calculate != ~remainder ^ mask({mname})"
         fe(f"etsi.crc.crc9:CRC9.calculate[{mname}]", "etsi.crc.crc9", "CRC9.calculate", build, expect)
         for variant in ("none", "bytes", "int"):
             for nd in (10, 6):
@@ -223,7 +237,7 @@ def run(ctx):
                             c32 = []
                     rem = remainder_forms(I, I.simp_bits(data + c32 + sn), 9, 0x059)
                     want = [b ^ 1 ^ ((spec["masks"][mname] >> (8 - j)) & 1) for j, b in enumerate(rem)]
-                    return None if I.simp_bits(int_forms_msb(r, 9)) == want else f"calculate_from_parts[{variant}] != CRC9(data || crc32 || dbsn)"
+                    return None if same_bits(I, int_forms_msb(r, 9), want) else f"calculate_from_parts[{variant}] != CRC9(data || crc32 || dbsn)"
                 fe(f"etsi.crc.crc9:CRC9.calculate_from_parts[{mname},{variant},{nd} octets]", "etsi.crc.crc9", "CRC9.calculate_from_parts", build, expect)
     # CRC32: 16-bit word swap, then every octet most-significant bit first
     for n in (8, 13, 22):
@@ -237,7 +251,7 @@ def run(ctx):
                 sw[i], sw[i + 1] = by[i + 1], by[i]
             seq = [b for o in sw for b in o]
             rem = remainder_forms(I, seq, 32, 0x04C11DB7)
-            return None if I.simp_bits(int_forms_msb(r, 32)) == rem else "CRC32.calculate != remainder over the word-swapped octets"
+            return None if same_bits(I, int_forms_msb(r, 32), rem) else "CRC32.calculate != remainder over the word-swapped octets"
         fe(f"etsi.crc.crc32:CRC32.calculate[{n} octets]", "etsi.crc.crc32", "CRC32.calculate", build, expect)
 
     # ---- check == (calculate == given)
